@@ -215,9 +215,12 @@ func zzC17_braces() {
 // path, and the outcome is the one of the route set before or after the change
 func zzC17_concurrent() {
 	r := NewRouter()
-	var invoked []string
+	var invoked [2][]string
 	mk := func(name string) Handler {
-		return HandlerFunc(func(w ResponseWriter, m *Message) { invoked = append(invoked, name) })
+		return HandlerFunc(func(w ResponseWriter, m *Message) {
+			d := int(m.MessageID())
+			invoked[d] = append(invoked[d], name)
+		})
 	}
 	base := []string{"/a", "/a/{id}"}
 	for _, p := range base {
@@ -225,10 +228,12 @@ func zzC17_concurrent() {
 	}
 	r.DefaultHandle(mk("<default>"))
 	path := []string{"/a", "/a/b", "/c"}[symChoose("path", 3)]
-	change := symChoose("change", 4)
+	change := symChoose("change", 5)
+	// a third party: nothing, a second dispatch, a second change, or a reader of the route table
+	third := symChoose("third", 4)
 	after := append([]string(nil), base...)
 	defAfter := "<default>"
-	done := 0
+	done, want := 0, 2
 	go func() {
 		switch change {
 		case 0: // a longer, more specific pattern appears
@@ -242,19 +247,52 @@ func zzC17_concurrent() {
 			defAfter = "<default2>"
 		case 3: // a pattern's handler is replaced
 			_ = r.Handle("/a", mk("/a"))
+		case 4: // registered through the convenience wrappers
+			r.HandleFunc("/a/b", func(w ResponseWriter, m *Message) { invoked[int(m.MessageID())] = append(invoked[int(m.MessageID())], "/a/b") })
+			after = append(after, "/a/b")
 		}
 		done++
 	}()
-	go func() {
+	dispatch := func(d int, p string) {
 		req := &Message{Message: pool.NewMessage(context.Background()), RouteParams: new(RouteParams)}
-		_ = req.SetPath(path)
+		req.SetMessageID(int32(d))
+		_ = req.SetPath(p)
 		r.ServeCOAP(&zzRW{}, req)
 		done++
-	}()
-	symWaitUntil(func() bool { return done == 2 })
+	}
+	go dispatch(0, path)
+	switch third {
+	case 1:
+		want = 3
+		go dispatch(1, "/a/b")
+	case 2:
+		want = 3
+		go func() {
+			_ = r.HandleRemove("/zz")
+			r.DefaultHandleFunc(func(w ResponseWriter, m *Message) {
+				invoked[int(m.MessageID())] = append(invoked[int(m.MessageID())], "<default3>")
+			})
+			done++
+		}()
+	case 3:
+		want = 3
+		go func() {
+			_ = r.GetRoute("/a")
+			_ = len(r.GetRoutes())
+			done++
+		}()
+	}
+	symWaitUntil(func() bool { return done == want })
 	symCover("joined")
-	symAssert(len(invoked) == 1, "dispatch invokes exactly one handler")
-	if len(invoked) != 1 {
+	symAssert(len(invoked[0]) == 1, "dispatch invokes exactly one handler")
+	if third == 1 {
+		symAssert(len(invoked[1]) == 1, "dispatch invokes exactly one handler")
+		if len(invoked[1]) == 1 {
+			g := invoked[1][0]
+			symAssert(g == "/a/{id}" || g == "/a/b" || g == "<default>" || g == "<default2>", "a registered handler is only invoked for a pattern that matches the entire path")
+		}
+	}
+	if len(invoked[0]) != 1 {
 		return
 	}
 	pick := func(set []string, def string) string {
@@ -266,10 +304,14 @@ func zzC17_concurrent() {
 		}
 		return name
 	}
-	got := invoked[0]
-	if got != "<default>" && got != "<default2>" {
+	got := invoked[0][0]
+	if got != "<default>" && got != "<default2>" && got != "<default3>" {
 		ok, _ := zzMatch(got, path)
 		symAssert(ok, "a registered handler is only invoked for a pattern that matches the entire path")
+	}
+	if third == 2 && got == "<default3>" {
+		symAssert(pick(base, "<d>") == "<d>" || pick(after, "<d>") == "<d>", "the default handler is invoked only when nothing matches")
+		return
 	}
 	symAssert(got == pick(base, "<default>") || got == pick(after, defAfter) || got == pick(after, "<default>") || got == pick(base, defAfter),
 		"the outcome is the one of the route set before or after the concurrent change")
